@@ -60,6 +60,7 @@ def run(db, chk):
     not_found_table(db, chk)
     prefix_filter_rule(db, chk)
     candidate_order_rule(db, chk)
+    candidate_prefix_rule(db, chk)
     check_sorter("ws(walkdir)", db, chk, r"walkdir::WalkDir::sort_by$")
     db2 = facts.load("fs-par")
     check_sorter("fs-par(jwalk)", db2, chk, r"::process_read_dir$")
@@ -184,3 +185,28 @@ def candidate_order_rule(db, chk):
                "this loop over the candidate names looks only at %s references: an earlier candidate that exists only in the other store loses against a later one (packed refs/tags/v1 vs loose refs/heads/v1: git resolves the tag)" % sorted(kinds),
                "%s:%d" % (f.file, line), key="candidate-order|find_one_with_verified_input")
     chk.floor("find_one_with_verified_input: candidate loops with lookups", n, 1)
+
+
+def candidate_prefix_rule(db, chk):
+    """git's candidates for a short name are <n>, refs/<n>, refs/tags/<n>, refs/heads/<n>, refs/remotes/<n>, refs/remotes/<n>/HEAD: everything
+    but the first lives in refs/.  construct_full_name_ref(inbetween) leaves `refs/` away for names that look like full names (HEAD, FETCH_HEAD,
+    refs/..) - that may only affect the candidate without `inbetween`.  An all-uppercase tag or branch (RELEASE, STABLE) `looks like` a pseudo
+    ref, and would otherwise be searched as <git-dir>/tags/RELEASE.  Structural form: the push of the constant `refs/` is reachable from the
+    TRUE edge of looks_like_full_name() as well (through the test of `inbetween`), not only from its false edge."""
+    f = db.one(r"^gix_ref::name::<impl gix_ref::PartialNameRef>::construct_full_name_ref$")
+    fl = Flow(f)
+    t = f.calls_to(r"::looks_like_full_name$")
+    pushes = [c for c in f.calls() if c.is_(r"::push_str$|::extend_from_slice$") and len(c.args) > 1 and any(
+        r[0] == "const" and r[1] in (b"refs/", "refs/") for r in fl.roots(c.args[1], stop_named=False))]
+    chk.floor("construct_full_name_ref: looks_like_full_name test / push of `refs/`", min(len(t), len(pushes)), 1)
+    if not t or not pushes:
+        return
+    e = fl.result_edges(t[0])
+    tru = e["good"] or set()
+    # bool result: good = true edge
+    reach_true = set().union(*[f.reach_from(x) for _, x in tru]) if tru else set()
+    uses_inbetween = any(any(r[0] == "arg" and r[1] == 2 for r in fl.roots(f.term(b)[1], stop_named=False)) for b in range(len(f.blocks)) if f.term(b)[0] == "switch" and "p" in f.term(b)[1])
+    for p in pushes:
+        chk.ob("later-candidates-live-in-refs", "construct_full_name_ref push(refs/)@%d" % p.line, p.block in reach_true and uses_inbetween,
+               "`refs/` is prepended only when the name does not look like a full name, whatever `inbetween` is: for the short name RELEASE the candidates are RELEASE, tags/RELEASE, heads/RELEASE - refs/tags/RELEASE is never tried and the lookup fails although git resolves it",
+               p.where(), key="candidate-prefix|construct_full_name_ref")
